@@ -8,6 +8,8 @@ pub mod stacks;
 pub mod fixint;
 pub mod maxsize;
 pub mod io;
+pub mod schema;
+pub mod schema_typed;
 
 use crate::rt::{Ctx, Tier};
 
@@ -30,6 +32,10 @@ pub fn run(id: &str, tier: Tier, seed: u64) -> i32 {
         "C11" => io::run(&ctx),
         "C12" => maxsize::run(&ctx),
         "C13" => fixint::run(&ctx),
+        "C14" => schema_typed::run(&ctx),
+        "C15" => schema::run_c15(&ctx),
+        "C16" => schema::run_c16(&ctx),
+        "C19" => schema::run_c19(&ctx),
         "C20" => stacks::run(&ctx),
         "C09" => acc::run(&ctx, true),
         _ => {
